@@ -90,24 +90,25 @@ type mGroup struct {
 
 type roomStats struct {
 	joinsOK, joinsRefused, refusedAfterHeld, modApplied, kicks, leaves, chatsDirected, chatsBroadcast, spoofs,
-	histJoins, histJoinsOver50, permChanges, tokenOps, refusedNonMember, disconnects, crossGroupTokenOps int
+	histJoins, histJoinsOver50, permChanges, tokenOps, refusedNonMember, disconnects, crossGroupTokenOps, listInSubgroup, listAnswered, listHier int
 	refusedReasons map[string]int
 	ops            []string
 }
 
 type room struct {
-	t      *rapid.T
-	s      *sim
-	cfg    roomCfg
-	groups map[string]*mGroup
-	gnames []string
-	where  map[string]string          // client id -> group name ("" = not a member)
-	held   map[string]map[string]bool // client id -> permissions it has ever held
-	chatN  int
-	nextID int
-	st     roomStats
-	or     string            // oracle family: "C08","C10","C11","C14","C15","C12"
-	tokens map[string]string // token -> group, tokens created through the harness
+	t         *rapid.T
+	s         *sim
+	cfg       roomCfg
+	groups    map[string]*mGroup
+	gnames    []string
+	where     map[string]string          // client id -> group name ("" = not a member)
+	held      map[string]map[string]bool // client id -> permissions it has ever held
+	chatN     int
+	nextID    int
+	st        roomStats
+	or        string            // oracle family: "C08","C10","C11","C14","C15","C12"
+	tokens    map[string]string // token -> group, tokens created through the harness
+	preTokens []string          // tokens made directly in the store at the start of the case (removed at its end)
 }
 
 func (r *room) opf(f string, a ...any) {
@@ -207,11 +208,32 @@ func newRoom(t *rapid.T, or string, nclients int) *room {
 	case "closed":
 		desc["expires"] = time.Now().Add(-time.Hour).Format(time.RFC3339)
 	}
+	// the second group is, in a third of the cases, a subgroup of the first (with its own definition): token scopes
+	// and listings then have an ancestor to be confused with
+	hierarchy := rapid.IntRange(0, 2).Draw(t, "hierarchy") == 0
+	base := fmt.Sprintf("v%d-%d", simCase, time.Now().UnixNano()%100000)
 	for _, sfx := range []string{"a", "b"} {
-		name := fmt.Sprintf("v%d-%d%s", simCase, time.Now().UnixNano()%100000, sfx)
+		name := base + sfx
+		if hierarchy && sfx == "b" {
+			name = base + "a/sub"
+		}
 		writeGroupFile(name, desc)
 		r.groups[name] = &mGroup{name: name, members: map[string]*mMember{}, locked: cfg.autolock, data: map[string]any{}}
 		r.gnames = append(r.gnames, name)
+	}
+	if hierarchy {
+		// tokens that only the API can make: one of the parent that also covers its subgroups, a server-wide one
+		e := time.Now().Add(time.Hour)
+		for _, tk := range []*token.Stateful{
+			{Token: base + "-hier", Group: r.gnames[0], IncludeSubgroups: true, Permissions: []string{"present"}, Expires: &e},
+			{Token: base + "-global", Group: "", IncludeSubgroups: true, Permissions: []string{"present"}, Expires: &e},
+		} {
+			if _, err := token.Update(tk, ""); err != nil {
+				t.Fatalf("VERIF-HARNESS-ERROR: %v", err)
+			}
+			r.preTokens = append(r.preTokens, tk.Token)
+		}
+		r.tokens[base+"-hier"] = r.gnames[0]
 	}
 	for _, sc := range r.s.cs {
 		r.where[sc.id] = ""
@@ -1037,7 +1059,7 @@ func (r *room) doToken(sc *simClient) {
 	g, me := r.member(sc.id)
 	r.st.tokenOps++
 	r.takeAll()
-	switch rapid.SampledFrom([]string{"make", "make", "list", "edit", "edit"}).Draw(t, "tokOp") {
+	switch rapid.SampledFrom([]string{"make", "make", "list", "list", "edit", "edit"}).Draw(t, "tokOp") {
 	case "make":
 		tg := ""
 		if g != nil {
@@ -1128,6 +1150,13 @@ func (r *room) doToken(sc *simClient) {
 			}
 			if !ok {
 				t.Fatalf("C11: listtokens by %s (member=%v perms=%v) was answered", sc.id, me != nil, permsOf(me))
+			}
+			r.st.listAnswered++
+			if len(r.preTokens) > 0 {
+				r.st.listHier++
+			}
+			if len(r.preTokens) > 0 && g.name == r.gnames[1] {
+				r.st.listInSubgroup++
 			}
 			// only tokens of the member's own group
 			if l, isList := m.Value.([]any); isList {
@@ -1271,6 +1300,13 @@ func (r *room) run(weights intentWeights, maxSteps int) {
 		}
 	}
 	defer r.s.cleanup()
+	defer func() {
+		for _, tk := range r.preTokens {
+			if _, etag, err := token.Get(tk); err == nil {
+				token.Delete(tk, etag)
+			}
+		}
+	}()
 	steps := rapid.IntRange(3, maxSteps).Draw(t, "steps")
 	for i := 0; i < steps; i++ {
 		// a closed connection is replaced by a fresh client (new id) most of the time
@@ -1302,7 +1338,7 @@ func (r *room) run(weights intentWeights, maxSteps int) {
 			}
 		}
 		switch intent {
-		case "moderate", "lock", "clearchat", "groupdata", "misc":
+		case "moderate", "lock", "clearchat", "groupdata", "misc", "token":
 			// most of the time let somebody who may do it try
 			if !oneIn(t, 3, "anyActor") {
 				if o := r.pickClient("opActor", func(o *simClient) bool { _, m := r.member(o.id); return m != nil && has(m.perms, "op") }); o != nil {
@@ -1396,6 +1432,11 @@ func (r *room) classes(rec *verifkit.Rec) {
 	rec.ClassN("spoofed_messages", r.st.spoofs)
 	rec.ClassN("privileged_attempts_by_non_members", r.st.refusedNonMember)
 	rec.ClassN("token_operations", r.st.tokenOps)
+	rec.ClassN("token_listings_in_a_subgroup_whose_parent_has_a_hierarchical_token", r.st.listInSubgroup)
+	rec.ClassN("token_listings_answered", r.st.listAnswered)
+	if len(r.preTokens) > 0 {
+		rec.Class("group_layout_parent_and_subgroup")
+	}
 	rec.ClassN("token_edits_across_groups", r.st.crossGroupTokenOps)
 	rec.ClassN("joins_with_history_replay", r.st.histJoins)
 	rec.ClassN("joins_with_full_history", r.st.histJoinsOver50)
